@@ -516,3 +516,42 @@ func VerifC19ErrorChunkToValue() {
 	vassert(rerr != nil && errors.Is(rerr, c19ErrChunk), "the error chunk is reported")
 	c19Finish([]*c19Prod{pa}, "error chunk at a stream-to-value conversion")
 }
+
+// Workflow: a streaming node a, a branch of a that picks one of b and c, both of which read a's output through a
+// data-only input. The node the branch does not pick is skipped but had a copy of a's output made for it: that copy is
+// closed as well, so a's producer is released when the caller stops reading (at any point).
+func VerifC19SkippedDataSuccessor() {
+	ctx := context.Background()
+	vcfg("preempt", vtier())
+	vcfg("selectfirst", 1)
+	K := 3
+	pa := &c19Prod{key: "a", k: K}
+	wf := NewWorkflow[map[string]any, map[string]any]()
+	wf.AddLambdaNode("a", pa.lambda(vchoose("cap", 2))).AddInput(START)
+	pass := func(key string) *Lambda {
+		return TransformableLambda(func(ctx context.Context, in *schema.StreamReader[map[string]any]) (*schema.StreamReader[map[string]any], error) {
+			return in, nil
+		})
+	}
+	wf.AddLambdaNode("b", pass("b")).AddInputWithOptions("a", nil, WithNoDirectDependency())
+	wf.AddLambdaNode("c", pass("c")).AddInputWithOptions("a", nil, WithNoDirectDependency())
+	pick := []string{"b", "c"}[vchoose("pick", 2)]
+	wf.AddBranch("a", NewStreamGraphBranch(func(ctx context.Context, in *schema.StreamReader[map[string]any]) (string, error) {
+		in.Close()
+		return pick, nil
+	}, map[string]bool{"b": true, "c": true}))
+	e := wf.End()
+	e.AddInput("b", ToField("b"))
+	e.AddInput("c", ToField("c"))
+	r, err := wf.Compile(ctx)
+	vassert(err == nil, "workflow compiles")
+	sr, err := r.Stream(ctx, map[string]any{"in": 1})
+	vassert(err == nil, "stream run starts")
+	readN := vchoose("readN", 3)
+	if readN == 2 {
+		c19ReadAll(sr)
+	} else {
+		c19Read(sr, readN)
+	}
+	c19Finish([]*c19Prod{pa}, "a branch target that is skipped although it reads the branching node's stream")
+}
